@@ -16,4 +16,23 @@ func init() {
 		"[has(st.Symbols[mangled]) && (flags & DefParam) == 0 && (flags & DefGlobal) != 0 && has(st.Global.Symbols[mangled])] sym.Flags |= flags; st.Symbols[mangled] = st.Symbols[name]; sym.Flags |= flags; st.Global.Symbols[mangled] = st.Global.Symbols[name]",
 		"[has(st.Symbols[mangled]) && (flags & DefParam) == 0 && (flags & DefGlobal) == 0] sym.Flags |= flags; st.Symbols[mangled] = st.Symbols[name]",
 	}
+	// a function read through an instance binds the instance; read through the class it stays a function  []
+	pathSpec["py|Function.M__get__"] = []string{
+		"[instance != None]  -> composite[instance,f], nil",
+		"[instance == None]  -> f, nil",
+	}
+	// a built-in method read through an instance binds the instance; read through the class it stays unbound  []
+	pathSpec["py|Method.M__get__"] = []string{
+		"[instance != None]  -> composite[instance,m], nil",
+		"[instance == None]  -> m, nil",
+	}
+	// a classmethod binds the owner class (the type of the instance when no owner is given), never the instance  []
+	pathSpec["py|ClassMethod.M__get__"] = []string{
+		"[owner != nil]  -> composite[owner,c.Callable], nil",
+		"[owner == nil] instance.Type() -> composite[(py.Object).Type#0,c.Callable], nil",
+	}
+	// a staticmethod binds nothing: the plain callable is returned  []
+	pathSpec["py|StaticMethod.M__get__"] = []string{
+		"[]  -> c.Callable, nil",
+	}
 }
